@@ -514,7 +514,7 @@ Proof. intros HC. unfold state_bump. destruct (alookup t (cbs w)); [apply C_cbs_
 Lemma C_once_finish t tk w : Cinv w -> Cinv (once_finish t tk w).
 Proof.
   intros H. unfold once_finish. destruct (alookup t (cbs w)) as [cb'|]; [|exact H].
-  pose proof (C_cbs_upd t (mkCb (cb_once cb') (cb_runno cb') (cb_captured cb') true false) w H) as H'. intros t0 Ht0. apply (H' t0). exact Ht0.
+  match goal with |- context [aupd t ?r (cbs w)] => pose proof (C_cbs_upd t r w H) as H' end. intros t0 Ht0. apply (H' t0). exact Ht0.
 Qed.
 
 Section CPrim.
